@@ -24,11 +24,30 @@ claim("C10", PROOF,
       "Trusted: go/ssa builder, govc, solvers, stubs of time.Time/Duration methods and strconv.Itoa, trusted contract of newTdigestEstimator, type contract of the estimator interface. Floats uninterpreted (expression equality). Stated assumptions: fewer than 2^62 results, byte and latency totals fit their types, timestamps after year 1, latency >= 0. Text/JSON renderers (fmt, encoding/json) not covered.",
       "DESIGN.md 8/C10")
 
+claim("C13", PROOF,
+      "Proof over the Decoder type contract (ghost cursor dpos(d) over an abstract record sequence; a decoder fails only when exhausted): the round-robin decoder closure advances exactly one input by exactly one record in that input's own order and hands out that record, leaves every other input's cursor untouched, "
+      "and returns an error only when every input is exhausted (loop invariant over the rotation, with the modular-arithmetic lemmas rot_of_tried / rot_injective / mod_add_multiple discharged separately).",
+      "Trusted: go/ssa builder, govc, solvers; the Decoder type contract is ASSUMED for the library-backed gob/CSV/JSON decoders on valid inputs. Stated assumptions: fewer than 2^64 calls; decoder(files) passes at least one decoder (call sites in package main always have >= 1 file; not verified). "
+      "Not covered: the report/encode loops in package main (each decoded record added/encoded exactly once with a fresh Result), so the consequence for report output rests on C10's commutativity lemmas plus that unverified loop.",
+      "DESIGN.md 8/C13")
+
+claim("C19", PROOF,
+      "Proof over uninterpreted library parsers (atoi, pdur, dsize, split, trim as spec functions): rateFlag.Set stores exactly N and D of 'N/D' (D defaults to 1s, a bare unit means one of it), 'infinity' and 0 give Freq 0, malformed counts/units are rejected; headers.Set appends the trimmed value under the case-preserved trimmed key and leaves every other key untouched; "
+      "csl.Set, maxBodyFlag.Set (-1, documented sizes, overflow rejected), dnsTTLFlag.Set, connectToFlag.Set (exactly four parts, validated, appended to the source's list, other sources untouched) and resolver normalizeAddrs (':53' appended iff no colon, order kept, host must be an IP, port a uint16) each meet their documented meaning for every input string.",
+      "Trusted: go/ssa builder, govc, solvers; assumed contracts of strconv.Atoi/ParseUint, time.ParseDuration, strings.Split/SplitN/TrimSpace/Contains, net.SplitHostPort/ParseIP, datasize.UnmarshalText. "
+      "Not covered: that a rate's printed form parses back (fmt.Sprintf is opaque), the unlimited-rate guard inside attack() (function not under contract), flag package plumbing.",
+      "DESIGN.md 8/C19")
+
+claim("C20", PROOF,
+      "Proof over assumed prometheus-client contracts (ghost per-child sums, WithLabelValues requires the vector's label arity): NewMetrics creates vectors of arity 3,3,3,4; Observe adds BytesIn/BytesOut to the counters of (method,url,status), adds one sample and Latency.Seconds() to that label set's histogram, increments the failure counter of (method,url,status,error) iff the error is non-empty, and leaves every other label set of every vector untouched (whole-view postconditions).",
+      "Trusted: go/ssa builder, govc, solvers; assumed contracts of the prometheus client (child identity per label tuple, Counter.Add/Inc, Observer.Observe); floats uninterpreted. Not covered: cumulative bucket counts and goroutine-safety inside the client library.",
+      "DESIGN.md 8/C20")
+
 claim("C18", PROOF,
       "Proof (sequential part): firstOfEachIPFamily returns at most one address per IP family, each the first of its family in the input, and modifies nothing: the frame obligation 'no element of the (cache-owned) input slice changes' is discharged for all inputs.",
       "Trusted: go/ssa builder, govc, solvers, assumed contracts of net.ParseIP / net.IP.To4 (uninterpreted isIP/isV4).",
       "DESIGN.md 8/C18")
 
-for p in ["C02","C03","C04","C05","C06","C07","C08","C09","C13","C14","C15","C16","C17","C19","C20"]:
+for p in ["C02","C03","C04","C05","C06","C07","C08","C09","C14","C15","C16","C17"]:
     na(p, "check not built yet (contracts planned in DESIGN.md section 8; engine features pending)")
 na("C11", "not applicable to contract-based verification: the property is the numerical accuracy of the external floating-point t-digest estimator (github.com/influxdata/tdigest); the in-repo code is three one-line delegations, so a contract could only restate an assumed contract of the library, which is the property itself (DESIGN.md section 9)")
